@@ -1,4 +1,5 @@
 import Driver.Codec
+import GarbleVerif.Model.RegAlloc
 open Lean
 namespace GVD
 
@@ -17,5 +18,19 @@ def regValidateEval (case : Json) : Json :=
   let ins := inputsOf (field case "inputs")
   let v := match c.validate with | .ok () => "ok" | .error e => regErr e
   Json.mkObj [("validate", v), ("eval", optBits (c.evalRaw? ins)), ("eval_strict", optBits (c.eval? ins))]
+
+/-- model conversion + strict evaluation of the converted circuit on the given inputs -/
+def convertOp (case : Json) : Json :=
+  let c := ssaFromJson (field case "circuit")
+  match GV.Reg.convert c with
+  | none => Json.mkObj [("panic", "model: conversion hits a missing wire_map entry")]
+  | some r =>
+    let v := match r.validate with | .ok () => "ok" | .error e => regErr e
+    let inputs := (getArr (field case "inputs")).map inputsOf
+    Json.mkObj [("reg", regToJson r), ("validate", v),
+      ("ssa_outs", toJson (inputs.map fun ins => optBits (c.eval? ins))),
+      ("reg_outs", toJson (inputs.map fun ins => optBits (r.evalRaw? ins))),
+      ("reg_strict", toJson (inputs.map fun ins => optBits (r.eval? ins))),
+      ("wires_len", toJson c.wiresLen), ("and_gates", toJson c.andGates)]
 
 end GVD
